@@ -55,6 +55,17 @@ static SIZE: [AtomicUsize; N] = {
     [Z; N]
 };
 
+/// Is `addr .. addr + len` inside a live guarded block?
+pub fn owns(addr: usize, len: usize) -> bool {
+    for i in 0..N {
+        let p = PTR[i].load(SeqCst);
+        if p != 0 && addr >= p && addr.wrapping_add(len) <= p + SIZE[i].load(SeqCst) && addr.wrapping_add(len) >= addr {
+            return true;
+        }
+    }
+    false
+}
+
 pub fn arm(mode: usize) {
     COUNT.store(0, SeqCst);
     ZCOUNT.store(0, SeqCst);
@@ -120,7 +131,11 @@ unsafe fn galloc(l: Layout, mode: usize, zeroed: bool) -> *mut u8 {
     if base as isize == -1 {
         return std::ptr::null_mut();
     }
-    libc::mprotect(base.add(PAGE) as *mut _, body, libc::PROT_READ | libc::PROT_WRITE);
+    if libc::mprotect(base.add(PAGE) as *mut _, body, libc::PROT_READ | libc::PROT_WRITE) != 0 {
+        // the kernel will not back the block: that is an allocation failure, not a block to hand out
+        libc::munmap(base as *mut _, total);
+        return std::ptr::null_mut();
+    }
     let right = mode == 1 || (mode == 3 && k % 2 == 0);
     let p = if right { ((base as usize + PAGE + body - size) & !(l.align() - 1)) as *mut u8 } else { base.add(PAGE) };
     for f in FREED.iter() {
